@@ -328,14 +328,12 @@ func (self valSorter) Less(i, j int) bool {
 		return self[i].Int() < self[j].Int()
 	}
 	if i1, ok := self[i].Interface().(fmt.Stringer); ok {
-		i2 := self[j].Interface().(fmt.Stringer)
-		return strings.Compare(i1.String(), i2.String()) < 0
+		if i2, ok := self[j].Interface().(fmt.Stringer); ok {
+			return strings.Compare(i1.String(), i2.String()) < 0
+		}
 	}
-	if i1, ok := self[i].Interface().(fmt.Stringer); ok {
-		i2 := self[j].Interface().(fmt.Stringer)
-		return strings.Compare(i1.String(), i2.String()) < 0
-	}
-	panic("not supported")
+	// every other kind of key (booleans, the other number widths, what is behind an interface{})
+	return reflectCompare(self[i], self[j])
 }
 
 func (self valSorter) Swap(i, j int) {
